@@ -37,6 +37,8 @@ func checkC01(p *Prog, r *Report) {
 	c01ReportingDepth(p, r, "C01.R8")
 	// the balance a user takes from the result files closes only if the writer prints the terms as computed (shared with C05.R11)
 	recordValueRule(p, r, "C01.R9")
+	// a constant level given as a series stays constant only if the reader keeps exactly the requested id's lines (shared with C20.R6)
+	c20SeriesIdAs(p, r, "C01.R10")
 }
 
 // resolvePhi substitutes φ atoms of q by the value of arm k.
